@@ -178,6 +178,7 @@ Proof.
   - exfalso. unfold step_close_start, finish_close in H. revert H. repeat break_match; discriminate.
   - exfalso. unfold step_close_timer in H. revert H. repeat break_match; discriminate.
   - exfalso. revert H. repeat break_match; discriminate.
+  - exfalso. destruct r; discriminate.
 Qed.
 
 (* the trigger the partial theorem excludes: a CallProgressive feeder is
@@ -407,6 +408,7 @@ Proof.
     eapply disconnect_no_progress; eauto.
   - exfalso. revert H. repeat break_match; try discriminate. intro H; inversion H; subst.
     eapply disconnect_no_progress; eauto.
+  - exfalso. match type of H with match ?x with _ => _ end = _ => destruct x end; inversion H; subst; simpl in Hin; intuition discriminate.
 Qed.
 
 (* ---- cancellation ---------------------------------------------------- *)
@@ -743,6 +745,7 @@ Proof.
   - unfold step_close_timer in H. revert H. repeat break_match; try discriminate. intro H; inversion H; subst.
     eapply wf_disconnect; eauto.
   - revert H. repeat break_match; try discriminate. intro H; inversion H; subst. eapply wf_disconnect; eauto.
+  - match type of H with match ?x with _ => _ end = _ => destruct x end; inversion H; subst; try exact W; eapply wf_same; eauto.
 Qed.
 
 Theorem wf_reachable : forall U c tr, WF (x_state (exec U c tr)).
@@ -874,6 +877,7 @@ Proof.
     intro H. inversion H; subst. match goal with E : disconnect _ = _ |- _ => disc_outs E Hin end.
   - exfalso. revert H. repeat break_match; try discriminate.
     intro H. inversion H; subst. match goal with E : disconnect _ = _ |- _ => disc_outs E Hin end.
+  - exfalso. match type of H with match ?x with _ => _ end = _ => destruct x end; inversion H; subst; simpl in Hin; intuition discriminate.
 Qed.
 
 Lemma count_final_no_send : forall req outs, (forall x, In x outs -> forall m, x <> OSend m) -> count_final req outs = 0%nat.
@@ -1038,6 +1042,7 @@ Proof.
     intro H. inversion H; subst. eapply disconnect_count_final; eauto.
   - apply LIT. revert H. repeat break_match; try discriminate.
     intro H. inversion H; subst. eapply disconnect_count_final; eauto.
+  - apply LIT. match type of H with match ?x with _ => _ end = _ => destruct x end; inversion H; subst; reflexivity.
 Qed.
 
 (* ================================================================== *)
@@ -1088,6 +1093,7 @@ Proof.
     intro H. inversion H; subst. match goal with E : disconnect _ = _ |- _ => disc_outs E Hin end.
   - exfalso. revert H. repeat break_match; try discriminate.
     intro H. inversion H; subst. match goal with E : disconnect _ = _ |- _ => disc_outs E Hin end.
+  - exfalso. match type of H with match ?x with _ => _ end = _ => destruct x end; inversion H; subst; simpl in Hin; intuition discriminate.
 Qed.
 
 (* the (subscription, publication) of the EVENT messages the run goroutine
@@ -1285,6 +1291,7 @@ Proof.
   - unfold step_close_timer in H. revert H. repeat break_match; try discriminate. intro H. inversion H; subst.
     apply DISC; first [assumption|reflexivity].
   - revert H. repeat break_match; try discriminate. intro H. inversion H; subst. apply DISC; first [assumption|reflexivity].
+  - match type of H with match ?x with _ => _ end = _ => destruct x end; inversion H; subst; apply SAME; simpl; first [reflexivity|assumption|congruence].
 Qed.
 
 Lemma count_done_ev_app : forall a b, count_done_ev (a ++ b) = (count_done_ev a + count_done_ev b)%nat.
@@ -1463,6 +1470,7 @@ Proof.
   - unfold step_close_timer in H. revert H. repeat break_match; try discriminate. intro H; inversion H; subst.
     eapply J_disconnect; eauto.
   - revert H. repeat break_match; try discriminate. intro H; inversion H; subst. eapply J_disconnect; eauto.
+  - match type of H with match ?x with _ => _ end = _ => destruct x end; inversion H; subst; try exact HJ; eapply J_same; eauto.
 Qed.
 
 (* Every API goroutine that waits for a reply has an armed response timer,
@@ -1629,6 +1637,7 @@ Proof.
     intro H. inversion H; subst. eapply DISC; [|eassumption|eassumption]; reflexivity.
   - exfalso. revert H. repeat break_match; try discriminate.
     intro H. inversion H; subst. eapply DISC; [|eassumption|eassumption]; reflexivity.
+  - exfalso. match type of H with match ?x with _ => _ end = _ => destruct x end; inversion H; subst; simpl in Hin; intuition discriminate.
 Qed.
 
 (* a computable form of [no_feeder_after_close], for the non-vacuity examples *)
@@ -1659,3 +1668,60 @@ Proof.
   intros U c tr H pre l post E Hl. unfold exec. eapply nfac_b_sound_gen; eauto.
 Qed.
 
+
+(* ================================================================== *)
+(* The configured cancel mode                                           *)
+
+(* SetCallCancelMode: "" selects killnowait, a valid mode selects itself, anything
+   else is refused and changes nothing *)
+Theorem set_mode_proof : forall U s r,
+  exists s' ok, step U s (SetMode r) = Ok s' [OSetMode ok] /\
+    cfg_mode (s_cfg s') = match r with MRDefault => MKillNoWait | MRSet m => m | MRInvalid => cfg_mode (s_cfg s) end /\
+    ok = match r with MRInvalid => false | _ => true end /\
+    s_awaiting s' = s_awaiting s.
+Proof. intros U s r. destruct r; simpl; eexists; eexists; repeat split. Qed.
+
+Lemma disconnect_cfg : forall s s' outs, disconnect s = (s', outs) -> s_cfg s' = s_cfg s.
+Proof.
+  intros s s' outs E. unfold disconnect in E. destruct (s_connected s); [|inversion E; subst; auto].
+  destruct (disconnect_waiters (s_awaiting s)) as [[aw o1] os1]. simpl in E.
+  destruct (s_closer s) as [[oc dl]|]; simpl in E; inversion E; subst; auto.
+Qed.
+
+(* ... and nothing else ever changes it: the mode of a CANCEL (cancel_sends_mode)
+   is the LAST accepted setting *)
+Theorem mode_only_changed_by_setmode_proof : forall U s l s' outs,
+  step U s l = Ok s' outs -> (forall r, l <> SetMode r) -> s_cfg s' = s_cfg s.
+Proof.
+  intros U s l s' outs H Hl. destruct l; simpl in H.
+  - revert H. repeat break_match; intro H; inversion H; subst; reflexivity.
+  - unfold step_api_start in H. revert H. repeat break_match; intro H; inversion H; subst; reflexivity.
+  - unfold step_router in H. destruct (negb (s_connected s)); [discriminate|].
+    destruct m; simpl in H;
+      try (unfold step_reply in H; revert H; repeat break_match; intro H; inversion H; subst; reflexivity).
+    + unfold step_event in H. revert H. repeat break_match; intro H; inversion H; subst; reflexivity.
+    + unfold step_invocation, update_last_recv in H. revert H. repeat break_match; intro H; inversion H; subst; reflexivity.
+    + unfold step_interrupt, cancel_inv, update_last_recv in H. revert H. repeat break_match; intro H; inversion H; subst; reflexivity.
+    + destruct (disconnect s) eqn:E. inversion H; subst. eapply disconnect_cfg; eauto.
+    + destruct (disconnect s) eqn:E. inversion H; subst. eapply disconnect_cfg; eauto.
+  - unfold step_timer in H. revert H. repeat break_match; intro H; inversion H; subst; reflexivity.
+  - unfold step_ctx in H. revert H. repeat break_match; intro H; inversion H; subst; reflexivity.
+  - unfold step_ctx in H. revert H. repeat break_match; intro H; inversion H; subst; reflexivity.
+  - unfold step_api_finish in H.
+    destruct (fin_of (s_finishing s) o); [|discriminate].
+    destruct (f_op f); destruct (f_msg f); try discriminate;
+      revert H; repeat break_match; intro H; inversion H; subst; try reflexivity;
+      match goal with E : disconnect _ = _ |- _ => rewrite (disconnect_cfg _ _ _ E); reflexivity end.
+  - unfold step_inv_start in H. revert H. repeat break_match; intro H; inversion H; subst; reflexivity.
+  - unfold step_inv_exit in H. revert H. repeat break_match; intro H; inversion H; subst; reflexivity.
+  - unfold step_handler_return in H. revert H. repeat break_match; intro H; inversion H; subst; reflexivity.
+  - unfold step_send_prog in H. revert H. repeat break_match; intro H; inversion H; subst; reflexivity.
+  - unfold step_inv_timeout, cancel_inv in H. revert H. repeat break_match; intro H; inversion H; subst; reflexivity.
+  - unfold step_chunk in H. revert H. repeat break_match; intro H; inversion H; subst; reflexivity.
+  - unfold step_chunk in H. revert H. repeat break_match; intro H; inversion H; subst; reflexivity.
+  - unfold step_close_start, finish_close in H. revert H. repeat break_match; intro H; inversion H; subst; reflexivity.
+  - unfold step_close_timer in H. revert H. repeat break_match; try discriminate. intro H; inversion H; subst.
+    eapply disconnect_cfg; eauto.
+  - revert H. repeat break_match; try discriminate. intro H; inversion H; subst. eapply disconnect_cfg; eauto.
+  - exfalso. eapply Hl; reflexivity.
+Qed.
